@@ -40,6 +40,9 @@ pub enum Base {
     /// nonlinear Prothero-Robinson: with e = u - sin(om s), u' = lam e (1 + e^2) + om cos(om s); the Jacobian
     /// lam (1 + 3 e^2) depends on the state; e^2/(1+e^2) = C exp(2 lam tau) in closed form
     NPR { lam: f64, om: f64, u0: f64 },
+    /// cubic Prothero-Robinson: u' = lam (u^3 - phi^3) + phi', phi = 2 + sin(om s); the Jacobian 3 lam u^2 varies along
+    /// the slow manifold itself. Closed form only ON the manifold (u0 = phi(s0)): u = phi.
+    CPR { lam: f64, om: f64, u0: f64 },
 }
 
 impl Base {
@@ -58,7 +61,8 @@ impl Base {
             | Base::Bern { u0, .. }
             | Base::Rat { u0 }
             | Base::PR { u0, .. }
-            | Base::NPR { u0, .. } => vec![*u0],
+            | Base::NPR { u0, .. }
+            | Base::CPR { u0, .. } => vec![*u0],
             Base::Rot { u0, .. } => u0.to_vec(),
         }
     }
@@ -82,6 +86,10 @@ impl Base {
                 let e = u[0] - (om * s).sin();
                 du[0] = lam * e * (1.0 + e * e) + om * (om * s).cos();
             }
+            Base::CPR { lam, om, .. } => {
+                let ph = 2.0 + (om * s).sin();
+                du[0] = lam * (u[0] * u[0] * u[0] - ph * ph * ph) + om * (om * s).cos();
+            }
         }
     }
     /// d g / d u as a (dim x dim) block
@@ -99,6 +107,7 @@ impl Base {
                 let e = u[0] - (om * s).sin();
                 vec![vec![lam * (1.0 + 3.0 * e * e)]]
             }
+            Base::CPR { lam, .. } => vec![vec![3.0 * lam * u[0] * u[0]]],
         }
     }
     /// exact solution at s when u(s0) = u0
@@ -133,6 +142,7 @@ impl Base {
                 let e = e0.abs() / (1.0 + e0 * e0).sqrt() * (lam * tau).exp() / (1.0 - z).sqrt();
                 vec![(om * s).sin() + e0.signum() * e]
             }
+            Base::CPR { om, .. } => vec![2.0 + (om * s).sin()],
         }
     }
     /// |d u(s) / d u0| (sensitivity to the initial value), used for the amplification factor
@@ -153,6 +163,8 @@ impl Base {
                 let z = e0 * e0 / (1.0 + e0 * e0) * (2.0 * lam * tau).exp();
                 (lam * tau).exp() / ((1.0 + e0 * e0).powf(1.5) * (1.0 - z).powf(1.5))
             }
+            // linearisation about the manifold: e' = 3 lam phi^2 e with phi >= 1
+            Base::CPR { lam, .. } => (3.0 * lam * tau).exp().min(1.0),
         }
     }
     /// whether the closed form is regular on [s0, s1] (either order) with margin
